@@ -154,6 +154,8 @@ func NewLookupPartitionStrategyWithMetricRegistry(
 	}
 
 	unknownPartition := NewLookupPartitionWithMetricRegistry("<unknown>", 0.0, limit, registry)
+	// the unknown bucket is a zero-percent partition: its share follows the total limit like any other
+	unknownPartition.UpdateLimit(limit)
 	strategy := &LookupPartitionStrategy{
 		partitions:       partitions,
 		unknownPartition: unknownPartition,
@@ -176,6 +178,7 @@ func (s *LookupPartitionStrategy) AddPartition(name string, partition *LookupPar
 	if ok {
 		return false
 	}
+	partition.UpdateLimit(s.limit)
 	s.partitions[name] = partition
 	return true
 }
@@ -233,6 +236,7 @@ func (s *LookupPartitionStrategy) SetLimit(limit int) {
 		for _, v := range s.partitions {
 			v.UpdateLimit(int32(limit))
 		}
+		s.unknownPartition.UpdateLimit(int32(limit))
 	}
 }
 
